@@ -154,7 +154,11 @@ JudgeDecapQ(e, rx, q, crc) ==
                 THEN {i \in 1..Len(pre.ctxs) : ~(delim /\ kind # "complete" /\ pre.ctxs[i].id = id)}
                 ELSE {}
       vanished == {i \in others : ~(\E k \in 1..Len(post.ctxs) : post.ctxs[k] = pre.ctxs[i])}
-      claims(i) == wf /\ kind = "first" /\ r.t = "fragmented"
+      \* "unless it is a first fragment claiming that slot": a well-formed first fragment
+      \* of an aliasing id that was accepted, or that was rejected only because its payload
+      \* does not fit the buffer it obtained by claiming the slot
+      claims(i) == wf /\ kind = "first"
+                   /\ (r.t = "fragmented" \/ (r.t = "err" /\ w.plen > pre.ctxs[i].tag))
                    /\ (rx.slots = 0 \/ pre.ctxs[i].id % rx.slots = id % rx.slots)
       strayOk == \/ vanished = {}
                  \/ Cardinality(vanished) = 1 /\ \A i \in vanished : claims(i)
@@ -178,13 +182,13 @@ JudgeDecapQ(e, rx, q, crc) ==
                   /\ r.pdu = Payload(p, w) /\ r.meta.pdu_len = w.plen
                   /\ r.meta.ptype = w.ptype, PP(<<"C01">>), "Rx.CompleteContent")
         \cup V(wf /\ isStart /\ hasMeta => r.meta.exts = w.exts, <<"C13">>, "Rx.ExtensionsReported")
-        \cup V(wf /\ kind = "complete" /\ r.t = "err" /\ (cNoBuf \/ unresolvable) => cons = pl, <<"C10">>, "Rx.RejectOwnLen.complete")
+        \cup V(wf /\ kind = "complete" /\ ~zeroLab /\ r.t = "err" /\ (cNoBuf \/ unresolvable) => cons = pl, <<"C10">>, "Rx.RejectOwnLen.complete")
         \* first fragments
         \cup V(fMust => (r.t = "fragmented" \/ ~np), PP(<<"C02">>), "Rx.FirstAccept")
         \cup V(wf /\ kind = "first" /\ r.t = "fragmented" => r.meta.ptype = w.ptype, PP(<<"C02">>), "Rx.FirstMeta")
         \cup V(wf /\ kind = "first" /\ r.t = "fragmented" /\ post.ok =>
                   (postHas /\ pctx.pdu_len = w.plen /\ pctx.tl = w.tl), <<"C07", "C02">>, "Rx.FirstOpensContext")
-        \cup V(wf /\ kind = "first" /\ r.t = "err" /\ (fNoBuf \/ unresolvable) => cons = pl, <<"C10">>, "Rx.RejectOwnLen.first")
+        \cup V(wf /\ kind = "first" /\ ~zeroLab /\ tlCons /\ r.t = "err" /\ (fNoBuf \/ unresolvable) => cons = pl, <<"C10">>, "Rx.RejectOwnLen.first")
         \* intermediate fragments
         \cup V(iMust => (r.t = "fragmented" \/ ~np), PP(<<"C02">>), "Rx.Append")
         \cup V(wf /\ kind = "inter" /\ r.t = "fragmented" /\ g.open =>
@@ -234,10 +238,10 @@ JudgeDecapQ(e, rx, q, crc) ==
          \cup H(hasMeta /\ isStart /\ w.lt = "ru", "Rx.ResolveNearest")
          \cup H(cMust, "Rx.CompleteDeliver") \cup H(wf /\ kind = "complete" /\ r.t = "completed", "Rx.CompleteContent")
          \cup H(wf /\ isStart /\ hasMeta /\ Len(w.exts) > 0, "Rx.ExtensionsReported")
-         \cup H(wf /\ kind = "complete" /\ r.t = "err" /\ (cNoBuf \/ unresolvable), "Rx.RejectOwnLen.complete")
+         \cup H(wf /\ kind = "complete" /\ ~zeroLab /\ r.t = "err" /\ (cNoBuf \/ unresolvable), "Rx.RejectOwnLen.complete")
          \cup H(fMust, "Rx.FirstAccept") \cup H(wf /\ kind = "first" /\ r.t = "fragmented", "Rx.FirstMeta")
          \cup H(wf /\ kind = "first" /\ r.t = "fragmented" /\ post.ok, "Rx.FirstOpensContext")
-         \cup H(wf /\ kind = "first" /\ r.t = "err" /\ (fNoBuf \/ unresolvable), "Rx.RejectOwnLen.first")
+         \cup H(wf /\ kind = "first" /\ ~zeroLab /\ tlCons /\ r.t = "err" /\ (fNoBuf \/ unresolvable), "Rx.RejectOwnLen.first")
          \cup H(iMust, "Rx.Append") \cup H(wf /\ kind = "inter" /\ r.t = "fragmented" /\ g.open, "Rx.InterMetaIsFirsts")
          \cup H(wf /\ kind = "inter" /\ r.t = "fragmented" /\ hasCtx /\ post.ok, "Rx.AppendAdvances")
          \cup H(wf /\ kind = "inter" /\ hasMeta, "Rx.InterNeedsContext")
